@@ -315,6 +315,18 @@ def rule_pawn_table(ctx):
         side = "East" if "Direction::East" in txt else "West" if "Direction::West" in txt else None
         sides.add(side)
         ok = ok and capok and flagok and rank_ok and file_ok
+        # "iff": any further condition must be one we can decide; the only accepted one is "an enemy pawn stands beside this pawn"
+        for c in cons:
+            e = c[3]
+            if e[0] == "bin" and e[1] == "Eq" and "square.rank" in expr_str(e[2]):
+                continue
+            if e[0] == "call" and e[1].endswith("Option::is_some_and") and "en_passant_file" in c[0]:
+                continue
+            verdict = victim_guard(ix, b, sym, c, side)
+            ctx.check(verdict is True, c04.c15_dedup(ctx.__dict__.setdefault("_seen01", {}), "pawn:en-passant:%s:extra-condition" % side),
+                      "the additional condition on the %s en-passant capture is `an enemy pawn stands on the adjacent %s square` with the correct edge mask" % (side, (side or "").lower()), b.where(bi),
+                      bad_what="the %s en-passant capture is additionally conditioned on `%s` (%s): %s" % (side, c[0][:90], sorted(map(str, c[1])),
+                               verdict if isinstance(verdict, str) else "not a condition this rule can decide; legal en-passant captures may be dropped"))
     ctx.check(ok and sides == {"East", "West"}, "pawn:en-passant", "two en-passant captures (east and west), each en_passant(true), capturing Pawn(color.opposite()), on the e.p. rank when en_passant_file equals the destination file", b.where(0),
               bad_what="the en-passant moves are not two guarded captures of the opposite pawn with the en_passant flag (sides %s)" % sorted(map(str, sides)))
     # the closure of is_some_and compares the file with dest.file
@@ -341,6 +353,47 @@ def rule_pawn_table(ctx):
     # every pawn move goes through explode_promotion with this colour's back rank
     used = [t for cb in ix.closures_of(PAWN_MS) for _b, t in cb.calls() if callee_is(t, "board::piece::pawn::Pawn::explode_promotion")]
     ctx.check(len(used) == 1, "pawn:all-moves-exploded", "the final flat_map sends every generated pawn move through explode_promotion", b.where(0), bad_what="explode_promotion is applied at %d places" % len(used))
+
+
+def victim_guard(ix, b, sym, c, side):
+    """Decide an extra en-passant guard of the form !((origin << 1 | >> 1) & !FILE & enemy_pawns).is_empty().
+    Returns True if it is exactly `enemy pawn on the adjacent square on that side`, else a string saying what is wrong."""
+    from . import c06
+    e = c[3]
+    if not (e[0] == "call" and e[1].endswith("Bitboard::is_empty") and set(c[1]) == {False}):
+        return None
+    x = mir.strip_copies(e[2][0])
+    if not (x[0] == "call" and (x[1].endswith("ops::BitAnd>::bitand") or x[1].endswith("BitAnd<u64>>::bitand"))):
+        return None
+    y, enemy = x[2][0], x[2][1]
+    # enemy: a variable whose definitions are the opposite colour's pawns
+    table = {}
+    if enemy[0] == "var":
+        for l in range(len(b.locals)):
+            if b.local_name(l) == enemy[1]:
+                for (db, di, rv) in b.defs().get(l, []):
+                    v = sym.rvalue(rv)
+                    if v[0] == "field":
+                        for cc in C.constraints_for(ix, b, sym, db):
+                            for val in cc[1]:
+                                if val in ("White", "Black"):
+                                    table[val] = v[-1]
+    if table != {"White": "black_pawns", "Black": "white_pawns"}:
+        return "the bitboard it intersects with is not the opposite colour's pawns (%s)" % (table or expr_str(enemy))
+
+    def origin_test(o):
+        return (o[0] == "call" and ("From<board::square::Square>>::from" in o[1] or o[1].endswith("Bitboard::new")) and "square" in expr_str(o))
+    terms = c06.shift_terms(y, origin_test)
+    if not terms or len(terms) != 1:
+        return None
+    sh, keep = terms[0]
+    want_shift = 1 if side == "East" else -1
+    if sh != want_shift:
+        return "it looks %+d squares away, but the captured pawn of the %s capture stands at %+d" % (sh, side, want_shift)
+    need = c06.required_keep(want_shift)
+    if keep != need:
+        return "the shifted bit is masked with 0x%016x, but a step of %+d file(s) must exclude exactly 0x%016x (the wrap-around file): pawns standing on that edge file are discarded, so a legal en-passant capture is not generated" % (keep, want_shift, (~need) & ((1 << 64) - 1))
+    return True
 
 
 def rule_dispatch(ctx):
